@@ -9,11 +9,11 @@ VERIF = os.path.dirname(HERE)
 
 META = {
     "C01": dict(
-        text="Static necessary conditions of spec agreement: keyword tables equal the draft vocabularies; every type-restricted keyword is gated on its JSON type on every CFG path to an error or descent; scalar assertion keywords are reduced to finite truth tables over (gate, modifier, trichotomy) and compared with the specification's per draft; schema regexes are searched unanchored and verbatim; applicators iterate the whole keyword value; type predicates are evaluated abstractly over the 8 JSON value classes; neither a subschema nor an instance member is ever used as a condition; keyword code reads only the schema object it was called with. Not decided: combination semantics on concrete (schema, instance) pairs.",
+        text="Static necessary conditions of spec agreement: keyword tables equal the draft vocabularies; every type-restricted keyword is gated on its JSON type on every CFG path to an error or descent; scalar assertion keywords are reduced to finite truth tables over (gate, modifier, trichotomy) and compared with the specification's per draft; schema regexes are searched unanchored and verbatim; applicators iterate the whole keyword value; type predicates are evaluated abstractly over the 8 JSON value classes; neither a subschema nor an instance member is ever used as a condition; keyword code reads only the schema object it was called with; no instance member is compared with None (JSON null is a value); no behaviour changes at a size/depth/count fixed in the source (R1.16) and no identity comparison between computed values (R1.17). Not decided: combination semantics on concrete (schema, instance) pairs.",
         note="Trusted: the specification tables in sa/spec.py (Appendix B of DESIGN.md); Python comparison semantics on numbers.",
         technique="static analysis: table/data agreement, CFG must-pass-through, finite truth-table extraction", ref="5/C01"),
     "C02": dict(
-        text="Static: $ref short-circuits siblings in the dispatcher; every scope push is popped on every exit incl. exception and generator-close edges (typestate over the CFG); the pushed scope is the resolved URL; joins are against the current top of the scope stack; pointer pipeline order (shared with C14). Not decided: verdict equality with the inlined schema on concrete inputs; RFC 3986 join (stdlib).",
+        text="Static: $ref short-circuits siblings in the dispatcher; every scope push is popped on every exit incl. exception and generator-close edges (typestate over the CFG); the pushed scope is the resolved URL; joins are against the current top of the scope stack; pointer pipeline order (shared with C14); references written inside a document under a handler's own scheme or a URN resolve against that document (R2.15: fragment-only case fixed in /repo, relative-path case known finding F-19); no size/depth threshold in the resolver or dispatcher (R2.16). Not decided: verdict equality with the inlined schema on concrete inputs; RFC 3986 join (stdlib).",
         note="Trusted: urllib.parse.urljoin/urldefrag; CPython generator finalisation.",
         technique="static analysis: typestate/pairing on CFG with close edges, reaching definitions, provenance", ref="5/C02"),
     "C03": dict(
@@ -25,7 +25,7 @@ META = {
         note="Trusted: determinism follows from C07/C18 purity (composition).",
         technique="static analysis: call-graph who-calls, dominators, def-use provenance, table agreement", ref="5/C04"),
     "C05": dict(
-        text="Static: dispatcher loop has no early exit and yields every error of every keyword function; no keyword function leaves a loop after yielding in it; keyword functions read exactly the sibling names the spec gives them; keyword functions write no shared state. Not decided: multiset equality on concrete inputs.",
+        text="Static: dispatcher loop has no early exit and yields every error of every keyword function; no keyword function leaves a loop after yielding in it; keyword functions read exactly the sibling names the spec gives them; keyword functions write no shared state; no lazy reader of loop variables is put aside (R5.14); no size threshold (R5.15). Not decided: multiset equality on concrete inputs.",
         note="Trusted: spec sibling table (Appendix B.2).",
         technique="static analysis: CFG loop-exit rule, schema-key read sets, effect analysis", ref="5/C05"),
     "C06": dict(
@@ -37,7 +37,7 @@ META = {
         note="Trusted: CPython reference-counting finalisation of generators; lru_cache does not cache exceptions.",
         technique="static analysis: write-effect/alias analysis over the call graph, typestate on CFG", ref="5/C07"),
     "C08": dict(
-        text="Static: const/enum/uniqueItems relate instance-derived and schema-derived values only through the one normaliser (or under a path condition excluding every value the normaliser changes); the normaliser separates booleans from numbers (abstract evaluation over value classes); the relation is applied at every depth; member-wise code never substitutes a JSON value for an absent member nor truncates; const/enum/uniqueItems evaluated on every pair of a 76-value table (incl. dict/list subclasses) against reference JSON equality. Not decided: numeric equality of Python == (language semantics).",
+        text="Static: const/enum/uniqueItems relate instance-derived and schema-derived values only through the one normaliser (or under a path condition excluding every value the normaliser changes); the normaliser separates booleans from numbers (abstract evaluation over value classes); the relation is applied at every depth; member-wise code never substitutes a JSON value for an absent member nor truncates; const/enum/uniqueItems evaluated on every pair of a 76-value table (incl. dict/list subclasses) against reference JSON equality; no depth/length threshold in the normaliser or the relation (R8.6), no `is` between computed values (R8.7), no sibling keyword narrows the comparison (R8.8). Not decided: numeric equality of Python == (language semantics).",
         note="Trusted: Python == on int/float/str/list/dict.",
         technique="static analysis: taint/provenance of comparison operands, abstract evaluation of the normaliser", ref="5/C08"),
     "C09": dict(
@@ -81,7 +81,7 @@ META = {
         note="Trusted: thread safety of re's cache and lru_cache internals.",
         technique="static analysis: shared-state inventory + write-effect reachability", ref="5/C18"),
     "C19": dict(
-        text="Static on cli.run: schema failures return non-zero before any instance; instance loop has no early exit; exit-code accumulator is monotone; _validate_instance reports once per error and success only when none; stream discipline; every return is the accumulator or a non-zero constant; every parse failure becomes a diagnostic.",
+        text="Static on cli.run: schema failures return non-zero before any instance; instance loop has no early exit; exit-code accumulator is monotone; _validate_instance reports once per error and success only when none; stream discipline; every return is the accumulator or a non-zero constant; every parse failure becomes a diagnostic; main() and `python -m jsonschema` end with run()'s status (R19.11); the class named with --validator is the one used (R19.12).",
         note="Trusted: json.load exception model.",
         technique="static analysis: CFG dominators/loop exits, abstract interpretation over {zero, nonzero}, handler coverage", ref="5/C19"),
     "C20": dict(
